@@ -96,10 +96,20 @@ func runC02(ctx *Ctx) {
 	pc := newPipeCorr()
 	defer pc.run(ctx)
 	ctx.Rep.Rule = "article-like pages in which every word is a unique token, over all block kinds (paragraphs, headings, nested lists, quotes, pre, data/layout tables, figures with captions before/after the image, pictures, link clusters, hidden blocks, embeds); distinct by tag structure of the distilled HTML; non-trivial = at least two retained words and at least one source word dropped"
+	fl := newCorr("filters")
+	defer fl.run(ctx)
 	contentRun{id: "C02", n: [2]int{400, 20000}, url: pageURL,
 		corr: func(ctx *Ctx, x *distilled, replay interface{}) {
 			pc.add(ctx, x.D, x.Root, true, replay)
 			pc.add(ctx, x.D, x.Root, false, replay)
+			addFiltersCase(fl, ctx.Rep, x.Src, pageURL, true, replay)
+			addFiltersCase(fl, ctx.Rep, x.Src, pageURL, false, replay)
+		},
+		extra: func(ctx *Ctx, i int, r *Rng) []string {
+			if i%2 == 1 {
+				return nil
+			}
+			return []string{newPageGen(newRng(ctx.Seed, fmt.Sprintf("C02/fs/%d", i))).FilterStressPage()}
 		},
 		oracle: func(ctx *Ctx, x *distilled, replay interface{}) bool {
 			oracleC02(ctx.Rep, x, replay)
@@ -280,11 +290,17 @@ func runC09(ctx *Ctx) {
 	corrWords := newCorr("countwords")
 	defer corrWords.run(ctx)
 	ctx.Rep.Rule = "article-like pages over all block kinds, plus text-only pages (inline mixes, anchors, br, detached punctuation) for the word-count clause; distinct by structure; non-trivial = a retained table or figure, or a text-only page with at least two retained blocks"
+	fl := newCorr("filters")
+	defer fl.run(ctx)
 	contentRun{id: "C09", n: [2]int{300, 12000}, url: pageURL,
 		extra: func(ctx *Ctx, i int, r *Rng) []string {
 			g := newPageGen(r)
 			g.Weights = []W{{"para", 50}, {"shortpara", 10}, {"heading", 5}, {"list", 10}, {"quote", 8}, {"pre", 3}, {"links", 6}, {"divwrap", 8}, {"baretext", 5}}
-			return []string{g.Page(r.Range(3, 12), "")}
+			return []string{g.Page(r.Range(3, 12), ""), newPageGen(newRng(ctx.Seed, fmt.Sprintf("C09/fs/%d", i))).FilterStressPage()}
+		},
+		corr: func(ctx *Ctx, x *distilled, replay interface{}) {
+			addFiltersCase(fl, ctx.Rep, x.Src, pageURL, true, replay)
+			addFiltersCase(fl, ctx.Rep, x.Src, pageURL, false, replay)
 		},
 		oracle: func(ctx *Ctx, x *distilled, replay interface{}) bool {
 			for _, l := range strings.Split(x.Res.Text, "\n") {
